@@ -94,6 +94,61 @@ fn u32_decimal_regex() -> String {
     "(?:0|[1-9][0-9]{0,8}|[1-3][0-9]{9}|4[01][0-9]{8}|42[0-8][0-9]{7}|429[0-3][0-9]{6}|4294[0-8][0-9]{5}|42949[0-5][0-9]{4}|429496[0-6][0-9]{3}|4294967[01][0-9]{2}|42949672[0-8][0-9]|429496729[0-5])".to_string()
 }
 
+/// Shape of each top-level alternative: its literal prefix / suffix and, for the capture group in it, whether the
+/// repetition directly inside the group is greedy. (`/\*(.+)\*/` on `/* a */ /* b */` captures ` a */ /* b `,
+/// `/\*(.+?)\*/` captures ` a `: same language, different groups.)
+fn branches(h: &regex_syntax::hir::Hir) -> Vec<serde_json::Value> {
+    use regex_syntax::hir::{Hir, HirKind};
+    fn lit(h: &Hir) -> Option<String> {
+        match h.kind() {
+            HirKind::Literal(l) => Some(String::from_utf8_lossy(&l.0).to_string()),
+            _ => None,
+        }
+    }
+    fn cap(h: &Hir, out: &mut Vec<serde_json::Value>) {
+        match h.kind() {
+            HirKind::Capture(c) => {
+                let mut reps = Vec::new();
+                fn reps_in(h: &Hir, out: &mut Vec<bool>) {
+                    match h.kind() {
+                        HirKind::Repetition(r) => {
+                            out.push(r.greedy);
+                            reps_in(&r.sub, out)
+                        }
+                        HirKind::Concat(v) | HirKind::Alternation(v) => v.iter().for_each(|x| reps_in(x, out)),
+                        HirKind::Capture(c) => reps_in(&c.sub, out),
+                        _ => {}
+                    }
+                }
+                reps_in(&c.sub, &mut reps);
+                out.push(json!({"index": c.index, "greedy": reps}));
+            }
+            HirKind::Concat(v) | HirKind::Alternation(v) => v.iter().for_each(|x| cap(x, out)),
+            HirKind::Repetition(r) => cap(&r.sub, out),
+            _ => {}
+        }
+    }
+    let alts: Vec<&Hir> = match h.kind() {
+        HirKind::Alternation(v) => v.iter().collect(),
+        _ => vec![h],
+    };
+    alts.iter()
+        .map(|a| {
+            let parts: Vec<&Hir> = match a.kind() {
+                HirKind::Concat(v) => v.iter().collect(),
+                _ => vec![*a],
+            };
+            let mut caps = Vec::new();
+            cap(a, &mut caps);
+            json!({
+                "prefix": parts.first().and_then(|x| lit(x)),
+                "suffix": if parts.len() > 1 { parts.last().and_then(|x| lit(x)) } else { None },
+                "captures": caps,
+            })
+        })
+        .collect()
+}
+
 fn main() {
     let args: Vec<String> = std::env::args().collect();
     let cmd = args.get(1).map(|s| s.as_str()).unwrap_or("");
@@ -141,6 +196,7 @@ fn main() {
                             "min_len": p.minimum_len(),
                             "max_len": p.maximum_len(),
                             "utf8": p.is_utf8(),
+                            "branches": branches(&h),
                         })
                     );
                 }
